@@ -393,7 +393,8 @@ same value is the documented one (`mask_batch_deletes_union`). -/
 example : ((meanCacheFill Aex rex (obsUnion obsB) (-999)).map fun a => (predMeanFill mtex Ktsex (obsUnion obsB) a (-999)).arr)
       = some #[#[(1 : ℚ)]] ∧
     (predMeanMaskBatch (fun _ => Aex) (fun _ => rex) (fun _ => mtex) (fun _ => Ktsex) obsB 0).map (·.arr)
-      = some #[#[(1 : ℚ)]] := by
-  constructor <;> decide +kernel
+      = some #[#[(1 : ℚ)]] ∧
+    (DMat.inv? (maskSub Aex (obsUnion obsB))).isSome = true := by
+  refine ⟨?_, ?_, ?_⟩ <;> decide +kernel
 
 end C16
